@@ -47,7 +47,12 @@ where
         expr: v1beta0::Expression,
     ) -> Result<v1beta0::Expression, crate::reduce::Error> {
         match expr {
-            v1beta0::Expression::EvalCompiler(op) => Ok(self.reduce_op(*op)?),
+            v1beta0::Expression::EvalCompiler(op) => {
+                // the operands may be closed but not reduced yet (an applied parameter, an
+                // arithmetic expression over constants): the compiler works on plain values
+                let op = crate::reduce::Apply::reduce(*op)?;
+                Ok(self.reduce_op(op)?)
+            }
             _ => Ok(expr),
         }
     }
